@@ -306,7 +306,9 @@ func (c *Ctx) clientSubscribeClosure() {
 		if !derivesFromLoopElement(a[1], l) {
 			bad = append(bad, "the filter registered is not the loop's element")
 		}
-		if !elementOfParallel(a[2], l, func(call *ssa.Call) bool { return ir.IsMethod(call.Common(), pkgMessage, "SubackMessage", "ReturnCodes") }) {
+		if !elementOfParallel(a[2], l, func(call *ssa.Call) bool {
+			return ir.IsMethod(call.Common(), pkgMessage, "SubackMessage", "ReturnCodes")
+		}) {
 			bad = append(bad, "the QoS registered is not the SUBACK's return code for that filter (retcodes[i])")
 		}
 		// registered callback: address of the captured onPublish
@@ -327,7 +329,9 @@ func (c *Ctx) clientSubscribeClosure() {
 			if !isK || k.Value == nil || k.Value.ExactString() != "128" {
 				return false
 			}
-			if !elementOfParallel(bo.X, l, func(call *ssa.Call) bool { return ir.IsMethod(call.Common(), pkgMessage, "SubackMessage", "ReturnCodes") }) {
+			if !elementOfParallel(bo.X, l, func(call *ssa.Call) bool {
+				return ir.IsMethod(call.Common(), pkgMessage, "SubackMessage", "ReturnCodes")
+			}) {
 				return false
 			}
 			failAtomSeen = true
@@ -370,7 +374,9 @@ func (c *Ctx) clientUnsubscribeClosure() {
 		return
 	}
 	pos := c.P.Pos(cl.Pos())
-	l := loopOver(cl, func(call *ssa.Call) bool { return ir.IsMethod(call.Common(), pkgMessage, "UnsubscribeMessage", "Topics") })
+	l := loopOver(cl, func(call *ssa.Call) bool {
+		return ir.IsMethod(call.Common(), pkgMessage, "UnsubscribeMessage", "Topics")
+	})
 	if l == nil {
 		c.R.Bad(ruleP4, "client-unsubscribe:removes-each-filter", pos, "no loop over the request's filters in the UNSUBACK completion closure: the callbacks stay registered after the Unsubscribe completed")
 		return
